@@ -122,6 +122,7 @@ void vh_ambient_scramble(uint64_t k);
 void vh_ambient_restore(void);
 /* exactly-sized heap copy (also for n == 0) so over-reads hit a red zone */
 uint8_t* vh_exact(const uint8_t* p, size_t n);
+uint8_t* vh_exact_mis(const uint8_t* p, size_t n, unsigned k, void** base); /* starts k bytes into its block; free *base */
 
 /* growable byte buffer */
 struct vh_buf { uint8_t* p; size_t n, cap; };
